@@ -34,6 +34,8 @@ type frame struct {
 	rets   []retSite
 	npanic map[string]int
 	clos   map[ssa.Value]*ssa.MakeClosure
+	closOrd map[ssa.Value]int
+	closChecked map[ssa.Value]bool
 }
 
 type mapIter struct {
@@ -368,7 +370,7 @@ func (g *Gen) mergeStates(es []edge) (string, *State) {
 
 func (g *Gen) newFrame(fn *ssa.Function, prefix string, top bool) *frame {
 	f := &frame{g: g, fn: fn, vals: map[ssa.Value]T{}, tuples: map[ssa.Value][]T{}, addrs: map[ssa.Value]addr{}, iters: map[ssa.Value]*mapIter{},
-		prefix: prefix, top: top, cells: map[string]*ssa.Alloc{}, npanic: map[string]int{}, clos: map[ssa.Value]*ssa.MakeClosure{}}
+		prefix: prefix, top: top, cells: map[string]*ssa.Alloc{}, npanic: map[string]int{}, clos: map[ssa.Value]*ssa.MakeClosure{}, closOrd: map[ssa.Value]int{}, closChecked: map[ssa.Value]bool{}}
 	for _, b := range fn.Blocks {
 		for _, ins := range b.Instrs {
 			if a, ok := ins.(*ssa.Alloc); ok && a.Comment != "" {
@@ -576,6 +578,7 @@ func (f *frame) instr(ins ssa.Instruction, pc string, st *State) string {
 		f.doTypeAssert(i, st, pc)
 	case *ssa.MakeClosure:
 		f.clos[i] = i
+		f.closOrd[i] = len(f.closOrd)
 		f.vals[i] = T{g.fresh(st), "Int"}
 	case *ssa.Defer:
 		fail("%s: defer is outside the subset", f.fn.Name())
